@@ -85,7 +85,10 @@ Print Assumptions C15_disconnect_non_edge_raises.
 
 (* ---- graph edits made INSIDE a delivery (ORemit n x t e: emit x at n; the reactive sink t performs the edit e from
         inside its callback the first time it is handed an element, while the loops of Stream._emit above it on the
-        call stack keep walking the snapshot of the downstream set they took when they started) ---- *)
+        call stack keep walking the snapshot of the downstream set they took when they started; before each hand-over
+        such a loop tests `downstream not in self.downstreams` on the current graph, so a child detached before it
+        was served is skipped, and a child attached during the emission - not in the snapshot of the running loop - is
+        served only by the emissions that start later) ---- *)
 
 Theorem C15_reentrant_links_consistent : forall (g : tgraph) (n : nat) (x : val) (t : nat) (e : tedit), reachable g -> wf_op g (ORemit n x t e) -> let g' := step_g g (ORemit n x t e) in (forall u d : nat, t_alive (tget g' u) = true -> t_alive (tget g' d) = true -> In d (t_downs (tget g' u)) <-> In u (t_ups (tget g' d))) /\ (forall i : nat, t_alive (tget g' i) = true -> NoDup (t_ups (tget g' i)) /\ NoDup (t_downs (tget g' i))) /\ (forall i j : nat, t_alive (tget g' i) = true -> In j (t_ups (tget g' i)) \/ In j (t_downs (tget g' i)) -> j < length g') /\ (forall u d : nat, t_alive (tget g' d) = true -> In u (t_ups (tget g' d)) -> u < d) /\ (forall u d : nat, t_alive (tget g' u) = true -> In d (t_downs (tget g' u)) -> u < d).
 Proof. exact (@reentrant_links_consistent). Qed.
@@ -95,27 +98,44 @@ Theorem C15_reentrant_raw_invariant : forall (g : tgraph) (n : nat) (x : val) (t
 Proof. exact (@reentrant_raw_invariant). Qed.
 Print Assumptions C15_reentrant_raw_invariant.
 
-Theorem C15_reentrant_untouched_sibling_gets_element : forall (g : tgraph) (n : nat) (x : val) (t : nat) (e : tedit) (g' : tgraph) (log : list tdeliv), reachable g -> wf_op g (ORemit n x t e) -> tstep g (ORemit n x t e) = (g', ROk, log) -> forall P c : nat, tk (tget g P) = TPipe -> In c (t_downs (tget g P)) -> t_alive (tget g' P) = true -> In c (t_downs (tget g' P)) -> cnt_edge P c log = cnt_to P log + b2n (n =? P).
+(* such an emission never raises: the update of a zip / combine_latest node is only handed an element by one of its inputs *)
+Theorem C15_reentrant_never_raises : forall (f : nat) (g : tgraph) (p : rpend) (n : nat) (x : val) (g' : tgraph) (p' : rpend) (r : bool) (log : list tdeliv), TInv0 g -> pend_ok g p -> alive g n -> rdeliver f g p n x = (g', p', r, log) -> r = false.
+Proof. exact (@reentrant_never_raises). Qed.
+Print Assumptions C15_reentrant_never_raises.
+
+Theorem C15_reentrant_step_never_raises : forall (g : tgraph) (n : nat) (x : val) (t : nat) (e : tedit) (g' : tgraph) (r : tres) (log : list tdeliv), reachable g -> wf_op g (ORemit n x t e) -> tstep g (ORemit n x t e) = (g', r, log) -> r = ROk.
+Proof. exact (@reentrant_step_never_raises). Qed.
+Print Assumptions C15_reentrant_step_never_raises.
+
+(* no hypothesis on the result of the step *)
+Theorem C15_reentrant_untouched_sibling_gets_element : forall (g : tgraph) (n : nat) (x : val) (t : nat) (e : tedit) (g' : tgraph) (r : tres) (log : list tdeliv), reachable g -> wf_op g (ORemit n x t e) -> tstep g (ORemit n x t e) = (g', r, log) -> forall P c : nat, tk (tget g P) = TPipe -> In c (t_downs (tget g P)) -> t_alive (tget g' P) = true -> In c (t_downs (tget g' P)) -> cnt_edge P c log = cnt_to P log + b2n (n =? P).
 Proof. exact (@reentrant_untouched_sibling). Qed.
 Print Assumptions C15_reentrant_untouched_sibling_gets_element.
 
-Theorem C15_reentrant_untouched_sibling_refuted : exists (ops : list top) (n : nat) (x : val) (t : nat) (e : tedit) (P c : nat), legal [] ops /\ (let g := run_ops [] ops in wf_op g (ORemit n x t e) /\ (exists (g' : tgraph) (log : list tdeliv), tstep g (ORemit n x t e) = (g', RRaise, log) /\ tk (tget g P) = TPipe /\ In c (t_downs (tget g P)) /\ t_alive (tget g' P) = true /\ In c (t_downs (tget g' P)) /\ cnt_edge P c log = 0 /\ cnt_to P log + b2n (n =? P) = 1)).
-Proof. exact (@reentrant_untouched_sibling_refuted). Qed.
-Print Assumptions C15_reentrant_untouched_sibling_refuted.
+(* the former witness of the defect "detached-input-still-served": the zip node 3, detached from 0 by the reactive sink 2
+   during the emission at 0, is skipped; the step returns and the late sibling 5 gets the element *)
+Theorem C15_reentrant_detached_combiner_not_served : legal [] c15r_bad_ops /\ (let g := run_ops [] c15r_bad_ops in wf_op g (ORemit 0 (VInt 2%Z) 2 (EDisconnect 0 3)) /\ (exists (g' : tgraph) (log : list tdeliv), tstep g (ORemit 0 (VInt 2%Z) 2 (EDisconnect 0 3)) = (g', ROk, log) /\ tk (tget g 0) = TPipe /\ tk (tget g 3) = TZip /\ In 3 (t_downs (tget g 0)) /\ ~ In 3 (t_downs (tget g' 0)) /\ In 5 (t_downs (tget g 0)) /\ t_alive (tget g' 0) = true /\ In 5 (t_downs (tget g' 0)) /\ log = [(0, 2, VInt 2%Z); (0, 5, VInt 2%Z)] /\ cnt_edge 0 3 log = 0 /\ cnt_edge 0 5 log = 1 /\ cnt_to 0 log + b2n (0 =? 0) = 1)).
+Proof. exact reentrant_detached_combiner_not_served. Qed.
+Print Assumptions C15_reentrant_detached_combiner_not_served.
 
 Theorem C15_reentrant_next_emit_follows_new_topology : forall (g : tgraph) (n : nat) (x : val) (t : nat) (e : tedit) (m : nat) (y : val) (g2 : tgraph) (r : tres) (log : list tdeliv), reachable g -> wf_op g (ORemit n x t e) -> let g1 := step_g g (ORemit n x t e) in wf_op g1 (OEmit m y) -> tstep g1 (OEmit m y) = (g2, r, log) -> r = ROk /\ (forall (s d : nat) (v : val), In (s, d, v) log -> t_alive (tget g1 d) = true /\ In d (t_downs (tget g1 s))) /\ filter (fun e0 : nat * nat * val => fst (fst e0) =? m) log = map (fun d : nat => (m, d, y)) (t_downs (tget g1 m)).
 Proof. exact (@reentrant_next_emit_follows_new_topology). Qed.
 Print Assumptions C15_reentrant_next_emit_follows_new_topology.
 
+(* without a pending edit the re-entrant delivery is the plain emission: the new test is vacuous when nobody edits the graph *)
+Theorem C15_reentrant_without_edit_is_plain_emit : forall (f : nat) (g : tgraph) (n : nat) (x : val) (g' : tgraph) (l : list tdeliv), TInv0 g -> alive g n -> temit f g n x = (g', l) -> rdeliver f g None n x = (g', None, false, l).
+Proof. exact (@reentrant_without_edit_is_plain_emit). Qed.
+Print Assumptions C15_reentrant_without_edit_is_plain_emit.
+
 Theorem C15_emit_forwarded_to_every_child : forall (g : tgraph) (n : nat) (x : val) (g' : tgraph) (r : tres) (log : list tdeliv), reachable g -> wf_op g (OEmit n x) -> tstep g (OEmit n x) = (g', r, log) -> forall P c : nat, tk (tget g P) = TPipe -> In c (t_downs (tget g P)) -> cnt_edge P c log = cnt_to P log + b2n (n =? P).
 Proof. exact (@emit_forwarded_to_every_child). Qed.
 Print Assumptions C15_emit_forwarded_to_every_child.
 
-Example C15_reentrant_nonvacuous : legal [] c15r_ops /\ map (fun o => (to_raised o, to_deliv o)) (skipn 8 (trun [] c15r_ops)) = [ (false, [(0, 1, VInt 1%Z); (1, 2, VInt 1%Z); (1, 3, VInt 1%Z); (1, 4, VInt 1%Z); (4, 5, VInt 1%Z); (4, 6, VInt 1%Z); (6, 7, VInt 1%Z)]); (false, [(0, 1, VInt 2%Z); (1, 2, VInt 2%Z); (1, 3, VInt 2%Z); (1, 4, VInt 2%Z); (4, 5, VInt 2%Z); (4, 6, VInt 2%Z); (6, 7, VInt 2%Z)]); (false, [(0, 1, VInt 3%Z); (1, 2, VInt 3%Z); (1, 4, VInt 3%Z); (4, 5, VInt 3%Z); (4, 6, VInt 3%Z); (6, 7, VInt 3%Z)]) ] /\ links_of (run_ops [] c15r_ops) = [ (true, [], [1]); (true, [0], [2; 4]); (true, [1], []); (true, [], []); (true, [1], [5; 6]); (true, [4], []); (true, [4], [7]); (true, [6], []) ].
+Example C15_reentrant_nonvacuous : legal [] c15r_ops /\ map (fun o => (to_raised o, to_deliv o)) (skipn 8 (trun [] c15r_ops)) = [ (false, [(0, 1, VInt 1%Z); (1, 2, VInt 1%Z); (1, 3, VInt 1%Z); (1, 4, VInt 1%Z); (4, 5, VInt 1%Z); (4, 6, VInt 1%Z); (6, 7, VInt 1%Z)]); (false, [(0, 1, VInt 2%Z); (1, 2, VInt 2%Z); (1, 4, VInt 2%Z); (4, 5, VInt 2%Z); (4, 6, VInt 2%Z); (6, 7, VInt 2%Z)]); (false, [(0, 1, VInt 3%Z); (1, 2, VInt 3%Z); (1, 4, VInt 3%Z); (4, 5, VInt 3%Z); (4, 6, VInt 3%Z); (6, 7, VInt 3%Z)]) ] /\ links_of (run_ops [] c15r_ops) = [ (true, [], [1]); (true, [0], [2; 4]); (true, [1], []); (true, [], []); (true, [1], [5; 6]); (true, [4], []); (true, [4], [7]); (true, [6], []) ].
 Proof. exact c15_reentrant_nonvacuous. Qed.
 Print Assumptions C15_reentrant_nonvacuous.
 
-Example C15_reentrant_sibling_nonvacuous : let g := run_ops [] (firstn 9 c15r_ops) in reachable g /\ wf_op g (ORemit 0 (VInt 2%Z) 2 (EDisconnect 1 3)) /\ exists g' log, tstep g (ORemit 0 (VInt 2%Z) 2 (EDisconnect 1 3)) = (g', ROk, log) /\ tk (tget g 1) = TPipe /\ In 4 (t_downs (tget g 1)) /\ t_alive (tget g' 1) = true /\ In 4 (t_downs (tget g' 1)) /\ cnt_edge 1 4 log = 1 /\ cnt_to 1 log = 1 /\ In 3 (t_downs (tget g 1)) /\ ~ In 3 (t_downs (tget g' 1)) /\ cnt_edge 1 3 log = 1.
+Example C15_reentrant_sibling_nonvacuous : let g := run_ops [] (firstn 9 c15r_ops) in reachable g /\ wf_op g (ORemit 0 (VInt 2%Z) 2 (EDisconnect 1 3)) /\ exists g' log, tstep g (ORemit 0 (VInt 2%Z) 2 (EDisconnect 1 3)) = (g', ROk, log) /\ tk (tget g 1) = TPipe /\ In 4 (t_downs (tget g 1)) /\ t_alive (tget g' 1) = true /\ In 4 (t_downs (tget g' 1)) /\ cnt_edge 1 4 log = 1 /\ cnt_to 1 log = 1 /\ In 3 (t_downs (tget g 1)) /\ ~ In 3 (t_downs (tget g' 1)) /\ cnt_edge 1 3 log = 0.
 Proof. exact c15_reentrant_sibling_nonvacuous. Qed.
 Print Assumptions C15_reentrant_sibling_nonvacuous.
 
